@@ -388,6 +388,16 @@ def eval_c16(batches, tier, seed, known, info):
             elif v['plugin'].get('contentSha') != want:
                 out['violations'].append({'kind': 'a blank command-line value replaced the YAML value of the option', 'batch': b['dir'], 'variant': v['dir'],
                                           'blank_parameters': blanked, 'exit': v['plugin'].get('exit'), 'stderr': v['plugin'].get('stderr', '')[-300:]})
+        # the `config` parameter itself: the same file under a path containing '=' / spaces, or relative to the working directory
+        for st in (('ok:eqpath', 'ok:spacepath', 'ok:relpath') if (tier != 'quick' or len(out['samples']) < 2) else ()):
+            c = copy.deepcopy(b['case'])
+            c['yamlState'] = st
+            v = run_variant(info, 'c16' + st.replace(':', ''), c)
+            out['evaluations'] += 1
+            out['distinct'].append(v['dir'])
+            if (v['plugin'].get('contentSha'), v['plugin'].get('exit')) != (want, base['plugin'].get('exit')):
+                out['violations'].append({'kind': 'the same configuration file under another path gives another result', 'batch': b['dir'], 'variant': v['dir'],
+                                          'config_path': st, 'exit': v['plugin'].get('exit'), 'stderr': v['plugin'].get('stderr', '')[-300:]})
         # a configuration that uses the dual options only, delivered (a) by the YAML file, (b) entirely by the command line next to a
         # `config` file that holds no YAML document at all (empty / comments only / blank lines): same result
         dual_only = copy.deepcopy(b['case'])
@@ -719,6 +729,36 @@ def eval_c18(batches, tier, seed, known, info):
                     out['violations'].append({'kind': 'a type restored by exclusion differs from the original', 'variant': v['dir'], 'type': keep_root})
                 if mf is not None and fail_root in mf and any(f in st['funcs'] for f in funcs_of_type(fail_root)):
                     out['violations'].append({'kind': 'a type with an unmappable field is generated partially or silently', 'variant': v['dir'], 'type': fail_root})
+        # directed: a fine selected type whose name EXTENDS the name of the failing type (RoleV2 next to Role), declared before it
+        pref = [r for r in roots if (find_msg(b['case'], r) or {}).get('fields') and not find_msg(b['case'], r + 'V2')]
+        if pref:
+            tgt = pref[0]
+            c = copy.deepcopy(b['case'])
+            msgs = c['request']['file']['messages']
+            i = [m_['name'] for m_ in msgs].index(tgt)
+            clone = copy.deepcopy(msgs[i])
+            clone['name'] = tgt + 'V2'
+            msgs.insert(i, clone)
+            find_msg(c, tgt)['fields'].append(bad_field('Zzbadmapfield'))
+            if any(kv['k'] == 'types' and kv['v'].strip() for kv in c['cli']):
+                for kv in c['cli']:
+                    if kv['k'] == 'types':
+                        kv['v'] = kv['v'].strip() + '+' + tgt + 'V2'
+            else:
+                c['yaml']['types'] = list(c['yaml'].get('types') or []) + [tgt + 'V2']
+            v = run_variant(info, 'c18prefix-' + tgt, c)
+            out['evaluations'] += 1
+            st = v['static'] or {'funcs': [], 'funcSha': {}}
+            m = model_emit(v)
+            if (v['plugin'] or {}).get('exit') != 0:
+                out['violations'].append({'kind': 'plugin fails as a whole instead of skipping the type', 'variant': v['dir']})
+            elif m.get('failed') is not None and (tgt + 'V2') not in m['failed']:
+                present = [f for f in funcs_of_type(tgt + 'V2') if f in st['funcs']]
+                if len(present) != 3:
+                    out['violations'].append({'kind': 'a selected type whose name extends the name of a failing type lost functions', 'variant': v['dir'],
+                                              'type': tgt + 'V2', 'failing_type': tgt, 'present': present, 'stderr': (v['plugin'].get('stderr') or '')[-300:]})
+                if sorted(m.get('funcs') or []) != sorted(st['funcs']):
+                    out['tie_breaks'].append({'variant': v['dir'], 'diff': f"model funcs {m.get('funcs')} vs {st['funcs']}"})
         if len(out['samples']) < 2:
             out['samples'].append({'batch': b['dir'], 'targets': targets, 'roots': roots})
     out['coverage'] = {'traces_validated_against_impl': out['evaluations'] - len(out['violations'])}
